@@ -9,6 +9,7 @@ package main
 import (
 	"encoding/json"
 	"flag"
+	"fmt"
 	"math/rand"
 	"os"
 	"runtime/debug"
@@ -100,12 +101,50 @@ func main() {
 	}
 	jobDeadline = time.Now().Add(budget).UnixNano()
 	j := &jobCtx{tier: *tier, seed: *seed, kind: *kind, r: rand.New(rand.NewSource(*seed))}
-	f(j)
+	runJob(job, f, j)
 	closeTrace()
 	writeStats(*out+".stats.json", j)
 	if !*nocap {
 		os.Remove(*out + ".cap")
 	}
+}
+
+// A panic that escapes a job: if it was raised INSIDE THE LIBRARY (the innermost non-runtime frame belongs to
+// github.com/emirpasic/gods), in a call the harness made outside a logged call (an observer, a state builder), it is the
+// library's behaviour and must end in a verdict: it is recorded as an event that did not complete, and the job ends there.
+// A panic raised in the harness's own code is a harness defect: the process dies and the check reports infrastructure trouble.
+func runJob(job string, f func(*jobCtx), j *jobCtx) {
+	defer func() {
+		r := recover()
+		if r == nil {
+			return
+		}
+		if !panickedInLibrary(string(debug.Stack())) {
+			panic(r)
+		}
+		emit(Ev{"fam": job, "kind": j.kind, "cfg": Ev{}, "op": "Observe", "a": Call{}.A(), "rs": 1, "pre": 0, "post": 0, "r": []any{},
+			"panic": true, "pmsg": fmt.Sprint(r) + " (in a library call made while observing or building; the job ended here)", "out": 0,
+			"cmps": 0, "timeout": false, "mut": false, "obsbad": true, "fp": []string{"", "", ""}})
+		extraStats["job_ended_by_library_panic"] = true
+	}()
+	f(j)
+}
+
+func panickedInLibrary(stack string) bool {
+	lines := strings.Split(stack, "\n")
+	for i := 0; i < len(lines); i++ {
+		if !strings.HasPrefix(lines[i], "panic(") {
+			continue
+		}
+		for k := i + 2; k < len(lines); k += 2 { // function line, file line, ...
+			fn := lines[k]
+			if strings.HasPrefix(fn, "runtime.") || strings.HasPrefix(fn, "panic(") {
+				continue
+			}
+			return strings.HasPrefix(fn, "github.com/emirpasic/gods/")
+		}
+	}
+	return false
 }
 
 func writeStats(path string, j *jobCtx) {
